@@ -15,3 +15,155 @@ pub fn conv_dump(d: hb::verif::TableDump) -> crate::dump::Dump {
 }
 
 pub const GROUP_WIDTH: usize = hb::verif::GROUP_WIDTH;
+
+#[allow(unused_macros)]
+macro_rules! bad {
+    ($p:expr, $k:expr, $($fmt:tt)*) => {
+        return Err(($p, $k, format!($($fmt)*)))
+    };
+}
+
+use crate::dump::Bad;
+
+pub fn check_hint<I: ExactSizeIterator>(it: &I, r: usize, what: &str) -> Result<(), Bad> {
+    let h = it.size_hint();
+    if h != (r, Some(r)) || it.len() != r {
+        bad!("C09", "size_hint", "{what}: size_hint {:?} len {} with {r} elements remaining", h, it.len());
+    }
+    Ok(())
+}
+
+/// Drive an exact-size iterator: `prefix` calls of next(), then the continuation.
+/// Returns the projected items and whether all yielded items are in the list.
+pub fn drive_iter<I, F>(
+    mut it: I,
+    total: usize,
+    prefix: usize,
+    cont: u64,
+    cloner: Option<&dyn Fn(&I) -> I>,
+    what: &str,
+    mut proj: F,
+) -> Result<(Vec<(u64, u64)>, bool), Bad>
+where
+    I: ExactSizeIterator,
+    F: FnMut(I::Item) -> (u64, u64),
+{
+    let mut out = Vec::new();
+    let mut r = total;
+    check_hint(&it, r, what)?;
+    for _ in 0..prefix.min(total) {
+        match it.next() {
+            Some(x) => {
+                out.push(proj(x));
+                r -= 1;
+                check_hint(&it, r, what)?;
+            }
+            None => bad!("C09", "yields-fewer", "{what}: next() returned None with {r} elements remaining"),
+        }
+    }
+    let mut complete = true;
+    match cont {
+        1 => {
+            let rest = it.fold(Vec::new(), |mut acc, x| {
+                acc.push(proj(x));
+                acc
+            });
+            if rest.len() != r {
+                bad!("C09", "fold-count", "{what}: fold visited {} elements, {r} remained", rest.len());
+            }
+            out.extend(rest);
+        }
+        2 => {
+            let mut n = 0;
+            it.for_each(|x| {
+                n += 1;
+                out.push(proj(x));
+            });
+            if n != r {
+                bad!("C09", "for_each-count", "{what}: for_each visited {n} elements, {r} remained");
+            }
+        }
+        4 => {
+            let n = it.count();
+            if n != r {
+                bad!("C09", "count", "{what}: count() = {n}, {r} remained");
+            }
+            complete = r == 0;
+        }
+        5 => {
+            // dropped early
+            complete = r == 0;
+            drop(it);
+        }
+        _ => {
+            let mut second: Option<I> = None;
+            if cont == 3 {
+                if let Some(c) = cloner {
+                    second = Some(c(&it));
+                }
+            }
+            let mut first_rest = Vec::new();
+            while let Some(x) = it.next() {
+                if r == 0 {
+                    bad!("C09", "yields-more", "{what}: next() yields more elements than len() announced");
+                }
+                first_rest.push(proj(x));
+                r -= 1;
+                check_hint(&it, r, what)?;
+            }
+            if r != 0 {
+                bad!("C09", "yields-fewer", "{what}: exhausted with {r} elements still announced");
+            }
+            for _ in 0..3 {
+                if it.next().is_some() {
+                    bad!("C09", "not-fused", "{what}: next() returned Some after None");
+                }
+            }
+            if let Some(mut it2) = second {
+                let mut r2 = first_rest.len();
+                let mut second_rest = Vec::new();
+                check_hint(&it2, r2, what)?;
+                while let Some(x) = it2.next() {
+                    if r2 == 0 {
+                        bad!("C09", "clone-yields-more", "{what}: cloned iterator yields more than the original");
+                    }
+                    second_rest.push(proj(x));
+                    r2 -= 1;
+                }
+                let mut a = first_rest.clone();
+                let mut b = second_rest;
+                a.sort_unstable();
+                b.sort_unstable();
+                if a != b {
+                    bad!("C09", "clone-differs", "{what}: cloned iterator yielded {:?}, original {:?}", b, a);
+                }
+            }
+            out.extend(first_rest);
+        }
+    }
+    Ok((out, complete))
+}
+
+pub fn compare_yield(mut got: Vec<(u64, u64)>, mut want: Vec<(u64, u64)>, complete: bool, what: &str) -> Result<(), Bad> {
+    got.sort_unstable();
+    want.sort_unstable();
+    if complete {
+        if got != want {
+            bad!("C09", "yield-multiset", "{what}: yielded {:?}, contents {:?}", &got[..got.len().min(12)], &want[..want.len().min(12)]);
+        }
+    } else {
+        // every yielded item is a distinct stored item
+        let mut j = 0;
+        for g in &got {
+            while j < want.len() && want[j] < *g {
+                j += 1;
+            }
+            if j >= want.len() || want[j] != *g {
+                bad!("C09", "yield-not-stored", "{what}: yielded {:?} which is not (or no longer) available in contents", g);
+            }
+            j += 1;
+        }
+    }
+    Ok(())
+}
+
